@@ -2672,6 +2672,15 @@ impl ReadTransaction {
         guard: TransactionGuard,
     ) -> Result<Self, TransactionError> {
         let root_page = mem.get_data_root();
+        Self::new_with_root(mem, guard, root_page)
+    }
+
+    // `root_page` must be the data root of the commit that `guard` registered
+    pub(crate) fn new_with_root(
+        mem: Arc<TransactionalMemory>,
+        guard: TransactionGuard,
+        root_page: Option<BtreeHeader>,
+    ) -> Result<Self, TransactionError> {
         let guard = Arc::new(guard);
         let resolver = PageResolver::new(mem.clone());
         Ok(Self {
